@@ -21,7 +21,7 @@ SHRINK_PLAN = False
 
 
 def cases(seed, tier):
-    yield from streams.stream_cases(ID, seed, tier)
+    yield from streams.stream_cases(ID, seed, tier, read_faults=0.25)
 
 
 def check_numbering(evs):
